@@ -102,7 +102,7 @@ pub fn io_kind(k: std::io::ErrorKind) -> &'static str {
         InvalidInput => "invalidinput",
         WriteZero => "writezero",
         ConnectionAborted => "injected",
-        _ => "otherkind",
+        _ => "other",
     }
 }
 
